@@ -12,7 +12,7 @@ from ..core import unhx
 THEOREMS = ['dayAcc_is_register', 'totals_eq_sum_daily', 'single_row_eq_day_totals', 'bal_single_total_eq_period_total', 'quantity_eq_sum_csv_rows', 'summary_eq_register_day', 'unresolved_eq_logged_minus_book', 'stats_counts_headings', 'quantity_eq_balance_leaf', 'stats_days_ago']
 LEVEL = 'proof'
 RULE = ('random logs x nested books x periods x elements; every relation is evaluated between two independent code paths of the program on the same input '
-        '(no reference model in between): totals vs sum of daily register totals vs reg -s rows vs bal -s total; quantity vs balance leaves vs csv log; element-total vs resolved csv; '
+        '(no reference model in between): totals vs sum of daily register totals vs reg -s rows (text and --csv) vs bal -s total; quantity vs balance leaves vs csv log; element-total vs resolved csv; '
         'summary vs register; unresolved vs logged minus book; stats vs headings; non-trivial = >= 2 days and an element with both signs; distinct by input hash')
 ASSUMPTIONS = ['quantities have at most one decimal and recipe coefficients are integers, so every printed figure is exact and relations are checked with equality']
 
@@ -84,6 +84,7 @@ def gen(g, count):
         add('reg', ['reg'])
         add('reg -s', ['reg'], s={'singleElement': x})
         add('reg -s -g', ['reg'], s={'singleElement': x, 'groupFood': True})
+        add('reg -s --csv', ['reg'], s={'singleElement': x, 'csv': True})
         add('bal', ['bal'])
         add('bal -s', ['bal'], s={'singleElement': x})
         add('quantity', ['report', 'quantity'])
@@ -134,6 +135,12 @@ def judge(ctx, groups, impl):
             tx = totals.get(x, (Fraction(0),) * 3)
             if (sp, -sn, ss) != tx:
                 bad('reg -s', 'period totals of %s differ from the sum of the single-element register rows' % x.decode(), {'totals_row': repr(tx), 'reg_s_sums': repr((sp, -sn, ss))})
+            # the CSV form of the single-element register carries the same three figures per day as the text form
+            crow = re.findall(rb'^([^;]*);"(.*)";(' + NUM + rb');(' + NUM + rb');(' + NUM + rb')$', o['reg -s --csv'], re.M)
+            trow = re.findall(rb'^(\S+) +(.*?) +(' + NUM + rb') +(' + NUM + rb') = *(' + NUM + rb')$', o['reg -s'], re.M)
+            if [(a, F(p), F(n_), F(s_)) for a, _, p, n_, s_ in crow] != [(a, F(p), F(n_), F(s_)) for a, _, p, n_, s_ in trow] or len(crow) != o['reg -s --csv'].count(b'\n'):
+                bad('reg -s --csv', 'the CSV form of the single-element register of %s differs from its text form' % x.decode(),
+                    {'csv': o['reg -s --csv'].decode('utf-8', 'replace')[:600], 'text': o['reg -s'].decode('utf-8', 'replace')[:600]}, 'reg-single-csv')
             # bal -s X grand total
             _, total = spec.parse_balance(o['bal -s'])
             if total is None or F(total[0]) != tx[2]:
